@@ -62,6 +62,7 @@ def run(tier):
     jobs.append((["total", "--mode", "nest", "--depth", "64"], "nest"))
     jobs.append((["total", "--mode", "literals"], "literals"))
     jobs.append((["total", "--mode", "arity"], "arity"))
+    jobs.append((["total", "--mode", "idents"], "idents"))
     with Pool(n) as pool:
         res = pool.map(_run, jobs)
     tot = {"inputs": 0, "lex_ok": 0, "parse_ok": 0, "check_ok": 0, "emit_ok": 0, "fmt_ok": 0}
@@ -85,7 +86,7 @@ def run(tier):
         "its duplication and its swap with the next token; nesting ladders (brackets, blocks, unary, calls, "
         "types, f-strings, chains) to depth 64; 14 type names x 8 argument lists (every arity 0..4, bare, nested) in 46 consuming positions (match with every "
         "constructor pattern, ?, for, index, methods, unpacking, tuple fields, returns of every literal kind, annotations, fields, enum payloads, newtypes, comprehensions, "
-        "operators, calls, nested in List/Dict/Option, trait methods, const, await); 96 unusual literal / identifier / operator tokens in 26 expression, pattern, type and declaration positions; distinct = distinct (stage statuses, normalised first diagnostic) outcome",
+        "operators, calls, nested in List/Dict/Option, trait methods, const, await); 58 characters (one or more per Unicode class: letters, non-ASCII digits, other numbers, letter numbers, combining marks, connectors, symbols, astral, format characters, separators, ASCII punctuation) as an identifier character in 5 positions of a name used consistently in every binding position of an otherwise well-typed program; 96 unusual literal / identifier / operator tokens in 26 expression, pattern, type and declaration positions; distinct = distinct (stage statuses, normalised first diagnostic) outcome",
         "samples": ["def f() -> int:(", "match x:\n    case \"s\"=>0", {"file": files[0], "edit": "delete char 17"}],
         "exhaustive": True,
         "inputs_by_mode": by_mode,
